@@ -256,8 +256,12 @@ static Rational LPFreadValue(char*& pos, SPxOut* spxout, const int lineno = -1)
       value = (*pos == '-') ? -1 : 1;
    else
    {
+      // the token may be longer than the buffer; the excess digits are dropped instead of written past its end
       for(t = tmp; pos != s; pos++)
-         *t++ = *pos;
+      {
+         if(t < tmp + SOPLEX_LPF_MAX_LINE_LEN - 1)
+            *t++ = *pos;
+      }
 
       *t = '\0';
 
@@ -307,8 +311,12 @@ static int LPFreadColName(char*& pos, NameSet* colnames, LPColSetBase<Rational>&
    while((strchr("+-.<>= ", *s) == nullptr) && (*s != '\0'))
       s++;
 
-   for(i = 0; pos != s; i++, pos++)
-      name[i] = *pos;
+   // a name longer than the buffer is truncated instead of written past the end of the buffer
+   for(i = 0; pos != s; pos++)
+   {
+      if(i < SOPLEX_LPF_MAX_LINE_LEN - 1)
+         name[i++] = *pos;
+   }
 
    name[i] = '\0';
 
